@@ -13,7 +13,7 @@ Section Loc.
     {| e_arr := bind_arr [("lon", lon); ("lat", lat); ("d", great_circle_distance geod lon lat)];
        e_num := bind_num [("range_max", rm); ("bbox.minx", Some minx); ("bbox.miny", Some miny);
                           ("bbox.maxx", Some maxx); ("bbox.maxy", Some maxy)];
-       e_str := (fun _ => None);
+       e_str := (fun _ => None); e_bool := (fun _ => None);
        e_size := length lon |}.
 
   Theorem skel_location minx miny maxx maxy rm lon lat :
